@@ -1,4 +1,5 @@
 import Verif.Proofs.C09HtmlModelTag
+import Verif.Model.C09HtmlFront
 /-!
 # C09 / HTML, item 5 — the model of html.go is defined on every token stream (in particular on the tokens of its own
 output): the only `Except.error` it can return is a missing entry of the external-result table `ext`
@@ -146,5 +147,35 @@ example : ∃ out, htmlMinify {} [] none [.startTag "p".toList [], .text "a".toL
     have : htmlMinify {} [] none [.startTag "p".toList [], .text "a".toList false] = .ok "<p>a".toList := by
       decide +kernel
     rw [this] at h; cases h)
+
+/-! ## idempotence is NOT a property of html.go -/
+open Verif.Model.C09HtmlFront
+
+/-- the statement that is not claimed: minifying the output again gives the same bytes -/
+def html_idempotent_full : Prop :=
+  ∀ (o : Opts) (ext : Ext) (sub : Sub) (toks : List HTok) (out1 out2 : List Char),
+    htmlMinify o ext sub toks = .ok out1 → htmlMinify o ext sub (frontEnd out1) = .ok out2 → out2 = out1
+
+/-- **html_idempotent_counterexample.**  Two of the classes found on the real code (`docs/C09-html.md` lists all):
+    (1) `aa</p><!-- -->` → `aa</p>` → `aa`: the look-ahead that decides about omitting `</p>` stops at a comment, the
+    comment is then removed, and the next pass omits the end tag (no sub-minifier involved);
+    (2) `<script> </script>` → `<script></script>` → nothing: the content is minified to nothing, and an attribute-less
+    empty `script` element is removed by the next pass (sub-minifier: anything that maps white space to nothing).
+    Non-idempotence is not a C09 violation; a failing second pass or invalid output would be. -/
+theorem html_idempotent_counterexample : ¬ html_idempotent_full := by
+  intro h
+  have h1 : htmlMinify {} [] none [.text "aa".toList false, .endTag "p".toList "</p>".toList,
+      .comment "<!-- -->".toList " ".toList] = .ok "aa</p>".toList := by decide +kernel
+  have h2 : htmlMinify {} [] none (frontEnd "aa</p>".toList) = .ok "aa".toList := by decide +kernel
+  have := h {} [] none _ _ _ h1 h2
+  revert this; decide
+
+/-- class (2), on the model with a sub-minifier that returns nothing for white space -/
+example :
+    let sub : Sub := some (fun _ _ p => if p.all Verif.Model.HtmlAttr.isWhitespace then [] else p)
+    htmlMinify {} [] sub [.startTag "script".toList [], .text " ".toList false, .endTag "script".toList "</script>".toList]
+      = .ok "<script></script>".toList ∧
+    htmlMinify {} [] sub (frontEnd "<script></script>".toList) = .ok [] := by
+  decide +kernel
 
 end Verif.Proofs.C09HtmlSecond
